@@ -245,6 +245,21 @@ class C10(Check):
             res['returned'] = X.canon(X.from_lxml(doc))
             res['kind'] = 'ncelement'
             res['find_data'] = r.find('.//data') is not None or r.find('.//{%s}data' % BASE) is not None
+            if case['profile'] == 'sros':
+                # namespaces are kept: the caller queries with its OWN prefix map - whatever prefix it picks (also one the library's static
+                # table uses for something else) must mean what the caller says
+                sent_root = X.et_parse_full(sent['raw'])
+                tags = [e.tag for e in sent_root.iter() if isinstance(e.tag, str) and e.tag.startswith('{') and not e.tag.startswith('{' + BASE)]
+                if tags:
+                    ns, name = tags[0][1:].split('}')
+                    want = sum(1 for e in sent_root.iter() if e.tag == tags[0])
+                    got = {}
+                    for pfx in ('q', 're', 'nc', 'junos'):
+                        try:
+                            got[pfx] = len(r.xpath('//%s:%s' % (pfx, name), namespaces={pfx: ns}))
+                        except Exception as e:
+                            got[pfx] = 'exc:' + type(e).__name__
+                    res['xpath_own_prefix'] = {'want': want, 'got': got, 'tag': tags[0]}
         else:
             res['kind'] = 'reply'
             res['raw_equal'] = r.xml == sent['raw']
@@ -338,6 +353,10 @@ class C10(Check):
         key = case['profile']
         if 'exc' in io:
             return ('C10:reply-lost@' + key, 'a well-formed reply raised %s: %s' % (io['exc'], io.get('msg')))
+        xo = io.get('xpath_own_prefix')
+        if xo and any(v != xo['want'] for v in xo['got'].values()):
+            return ('C10:xpath-caller-prefix@' + key, 'reply.xpath with the caller\'s own prefix map: the reply has %d elements %s, the query found %s (by prefix used)' % (
+                xo['want'], xo['tag'], xo['got']))
         tree = self._tree_with_mid(case, io['mid'])
         if io['kind'] == 'reply':
             if not io['raw_equal']:
